@@ -879,11 +879,21 @@ func (n *FuncType) String() string {
 		if i > 0 {
 			s += ", "
 		}
-		s += param.String()
+		if n.IsVariadic && i == len(n.Parameters)-1 {
+			if param.Ident != nil {
+				s += param.Ident.Name + " "
+			}
+			s += "..." + param.Type.String()
+		} else {
+			s += param.String()
+		}
 	}
 	s += ")"
 	if len(n.Result) > 0 {
-		if n.Result[0].Ident == nil {
+		// A single unnamed result is printed without parenthesis, unless it
+		// is a receive-only channel type that is parsed only in parenthesis.
+		ch, _ := n.Result[0].Type.(*ChanType)
+		if len(n.Result) == 1 && n.Result[0].Ident == nil && (ch == nil || ch.Direction != ReceiveDirection) {
 			s += " " + n.Result[0].Type.String()
 		} else {
 			s += " ("
